@@ -233,6 +233,10 @@ func extractLiteral(re *syntax.Regexp) []byte {
 	// Convert runes to bytes
 	result := make([]byte, 0, len(re.Rune))
 	for _, r := range re.Rune {
+		// A surrogate has no UTF-8 encoding and matches nothing: not a byte literal.
+		if r >= 0xD800 && r <= 0xDFFF {
+			return nil
+		}
 		// Every rune above U+007F is multi-byte in UTF-8 (U+00E9 is C3 A9, not the byte E9).
 		if r > 0x7F {
 			// Non-ASCII literal - still valid but needs UTF-8 encoding
